@@ -36,6 +36,12 @@ def pm_of_member(m):
             'greedy': bool(m.greedy), 'optional': bool(m.optional)}
 
 
+def calc_eval(text, env):
+    """the integer prophyc itself computes for a size text"""
+    import prophyc.calc
+    return prophyc.calc.eval(text, dict(env))
+
+
 def dimension_forms(rng):
     """one isar <member> per documented form: (xml, request for the model)"""
     forms = []
@@ -46,6 +52,8 @@ def dimension_forms(rng):
                 {'isVariableSize': 'true', 'variableSizeFieldType': 'u8'}, {'isVariableSize': 'true', 'variableSizeFieldName': 'cnt2', 'size': '2'},
                 {'variableSizeFieldName': '@cnt'}, {'size': 'THIS_IS_VARIABLE_SIZE_ARRAY'}, {'size': 'K'},
                 {'size': 'K+1', 'size2': '2'}, {'size': '2', 'size2': 'K-1'}, {'size': 'K_2', 'size2': '(K)'},
+                {'size': '(K+1)+(K_2+1)', 'size2': '2'}, {'size': '2', 'size2': '(K)-(1)'}, {'size': '(K)*(2)+(1)', 'size2': '(K_2)'},
+                {'size': '-(K)+(7)', 'size2': '(2)+(1)'},
                 {'isVariableSize': 'false', 'size': '3'}, {'isVariableSize': '0', 'size': '3'}, {'isVariableSize': 'False', 'size': '4'},
                 {'isVariableSize': 'yes', 'size': '4'}):
         forms.append((dim, dim, False))
@@ -139,6 +147,18 @@ def run_c17(tier):
                         chk.property_violation({'xml': xml, 'other_xml': seen[1]},
                                                {'what': 'the same isar member description yields different members depending on its position',
                                                 'here': impl, 'there': seen[0]})
+                    if dim_xml and 'size2' in dim_xml and len(impl) == 1 and impl[0].get('size'):
+                        # what a two-dimensional array means: size x size2 elements, whatever the two expressions look like
+                        env = {'K': 3, 'K_2': 5}
+                        want = eval(dim_xml['size'], {}, env) * eval(dim_xml['size2'], {}, env)   # noqa: S307 (literals of dimension_forms)
+                        try:
+                            got = calc_eval(impl[0]['size'], env)
+                        except Exception as ex:  # noqa
+                            got = type(ex).__name__
+                        if got != want:
+                            chk.property_violation({'xml': xml, 'constants': env},
+                                                   {'what': 'a %s x %s array has %s elements (size text %r); the prophy text `u8 x[%d]` has %d'
+                                                    % (dim_xml['size'], dim_xml['size2'], got, impl[0]['size'], want, want)})
                     rows.append(({'xml': xml}, impl))
                     req = {'op': 'isar_members', 'name': name, 'type': typ, 'optional': optional, 'message': message}
                     if dim_req is not None:
